@@ -97,6 +97,8 @@ pub struct Ext {
     pub crashed: Vec<Option<u64>>,
     pub seal_slack_us: u64,
     pub batch_delivered_to: HashSet<(usize, Digest)>,
+    /// (node, hash of the exact frame bytes, time): every batch frame made readable to a node.
+    pub batch_frames_delivered: Vec<(usize, Digest, u64)>,
     pending_votes: HashMap<Digest, Vec<(usize, usize, Round, u64)>>,
     /// Puppet world: index of the current quiescence step, and step-granular global maxima.
     pub step: u64,
@@ -142,6 +144,7 @@ impl Ext {
             crashed: vec![None; n],
             seal_slack_us: 20_000,
             batch_delivered_to: HashSet::new(),
+            batch_frames_delivered: Vec::new(),
             pending_votes: HashMap::new(),
             step: 0,
             w2: false,
@@ -773,6 +776,9 @@ fn mempool_frame(o: &mut Observer, ev: &TapEvent, phase: Phase, _fidx: u32, data
             } else {
                 o.fold_sig(&[11, ev.dst() as u64, txs.len() as u64]);
                 o.ext.batch_delivered_to.insert((ev.dst(), d.clone()));
+                if ev.dst() < o.n && o.ext.batch_frames_delivered.len() < 100_000 {
+                    o.ext.batch_frames_delivered.push((ev.dst(), d.clone(), ev.t_us));
+                }
             }
         }
         MempoolMessage::BatchRequest(ds, origin) => {
